@@ -536,7 +536,9 @@ func (e *Evaluator) evalFor(f *parser.ForStmt) (value, error) {
 		loopVarName = f.LoopVar.Name
 	}
 	for r.next(e.scope, loopVarName) {
+		e.pushScope() // block-local variables end with each iteration
 		val, err := e.eval(f.Block)
+		e.popScope()
 		if err != nil {
 			return nil, err
 		}
